@@ -167,6 +167,9 @@ func (w *World) addSpecFile(sf *SpecFile) error {
 				collectSelNames(cl.E, w.specFieldNames)
 			}
 		}
+		if c.Denotes != nil {
+			collectSelNames(c.Denotes, w.specFieldNames)
+		}
 	}
 	for _, p := range sf.Preds {
 		w.preds[p.Pkg+"\x00"+p.Name] = p
